@@ -22,6 +22,23 @@ type Doc struct {
 	RID  uint64 `json:"rid"`
 	Size int    `json:"size"`
 	Toks []Tok  `json:"toks"`
+	// Nested elements (fields of type "nested"): the proxy emits one extra zero-sized meta per
+	// element under the parent's ID, carrying the element's tokens plus all tokens of the parent.
+	// The store evaluates queries per meta ("row"); a document is found if any row matches.
+	Nested [][]Tok `json:"nested,omitempty"`
+}
+
+// Rows returns the rows (metas) of the document as token-only documents: the parent first.
+func (d *Doc) Rows() []*Doc {
+	if len(d.Nested) == 0 {
+		return []*Doc{d}
+	}
+	rows := []*Doc{{MID: d.MID, RID: d.RID, Size: d.Size, Toks: d.Toks}}
+	for _, n := range d.Nested {
+		toks := append(append([]Tok{}, n...), d.Toks...)
+		rows = append(rows, &Doc{MID: d.MID, RID: d.RID, Toks: toks})
+	}
+	return rows
 }
 
 type ID struct{ MID, RID uint64 }
@@ -143,8 +160,31 @@ func globMatch(pat, s string) bool {
 	return len(s) >= len(last) && strings.HasSuffix(s, last)
 }
 
-// Match evaluates the query on one document.
+// Match evaluates the query on one document: true if any of its rows matches.
 func (q *Q) Match(d *Doc) bool {
+	if len(d.Nested) == 0 {
+		return q.matchRow(d)
+	}
+	for _, r := range d.Rows() {
+		if q.matchRow(r) {
+			return true
+		}
+	}
+	return false
+}
+
+// MatchingRows counts the rows of d that match.
+func (q *Q) MatchingRows(d *Doc) []*Doc {
+	var out []*Doc
+	for _, r := range d.Rows() {
+		if q.matchRow(r) {
+			out = append(out, r)
+		}
+	}
+	return out
+}
+
+func (q *Q) matchRow(d *Doc) bool {
 	switch q.Op {
 	case "all":
 		return true
@@ -194,17 +234,17 @@ func (q *Q) Match(d *Doc) bool {
 		}
 		return false
 	case "not":
-		return !q.Kids[0].Match(d)
+		return !q.Kids[0].matchRow(d)
 	case "and":
 		for _, k := range q.Kids {
-			if !k.Match(d) {
+			if !k.matchRow(d) {
 				return false
 			}
 		}
 		return true
 	case "or":
 		for _, k := range q.Kids {
-			if k.Match(d) {
+			if k.matchRow(d) {
 				return true
 			}
 		}
@@ -244,6 +284,25 @@ func (c *Corpus) Matching(q *Q, from, to uint64, desc bool) []*Doc {
 		return Less(out[i].ID(), out[j].ID())
 	})
 	return out
+}
+
+// Rows expands matching documents into their matching rows (what the store counts); rowsAreDocs
+// tells whether every document matched through exactly one row, i.e. counts over rows equal
+// counts over documents and do not depend on where duplicate listing entries are removed.
+func Rows(q *Q, docs []*Doc) (rows []*Doc, rowsAreDocs bool) {
+	rowsAreDocs = true
+	for _, d := range docs {
+		if len(d.Nested) == 0 {
+			rows = append(rows, d)
+			continue
+		}
+		m := q.MatchingRows(d)
+		if len(m) != 1 {
+			rowsAreDocs = false
+		}
+		rows = append(rows, m...)
+	}
+	return rows, rowsAreDocs
 }
 
 // Hist computes histogram buckets.
